@@ -56,6 +56,11 @@ ResampleK(s0, newt, kind) ==
   ELSE LET s == ExtendW(s0, newt[Len(newt)]) IN
        [c |-> [k \in 1..Len(newt) |-> CentsAt(s, newt[k], kind)], w |-> [k \in 1..Len(newt) |-> VoicAt(s, newt[k], kind)]]
 HopBase(h, tmax) == [k \in 1..(tmax \div h + 1) |-> h * (k - 1)]
+(* the internal "hold" stage of one resampling (kinds other than zero / nearest, and only when resampling really        *)
+(* happens): every pitchless frame carries the pitch of the frame before it, recursively; the first frame is kept.      *)
+(* It is an intermediate state of the code (a local array), observed by tracing and compared with this.                  *)
+HeldSeq(s) == [k \in 1..Len(s.t) |-> Held(s.c, k)]
+HeldOf(s0, newt, kind) == IF s0.t = newt \/ kind \in {"zero", "nearest"} THEN <<>> ELSE <<HeldSeq(ExtendW(s0, newt[Len(newt)]))>>
 ToCentVoicingK(ref0, est0, hop, kind) ==
   LET ref == FV(PadW(ref0))  est == FV(PadW(est0))
       r2 == IF hop = 0 THEN [c |-> [k \in 1..Len(ref.t) |-> R(ref.c[k])], w |-> ref.w]
@@ -63,7 +68,9 @@ ToCentVoicingK(ref0, est0, hop, kind) ==
       e2 == IF hop = 0 THEN ResampleK(est, ref.t, kind) ELSE ResampleK(est, HopBase(hop, est.t[Len(est.t)]), kind)
       n == Len(r2.c)
       Cut(q) == [k \in 1..n |-> IF k <= Len(q) THEN q[k] ELSE <<0, 1>>]
-  IN  [rv |-> r2.w, rc |-> r2.c, ev |-> Cut(e2.w), ec |-> Cut(e2.c)]
+  IN  [rv |-> r2.w, rc |-> r2.c, ev |-> Cut(e2.w), ec |-> Cut(e2.c),
+       held |-> IF hop = 0 THEN HeldOf(est, ref.t, kind)
+                ELSE HeldOf(ref, HopBase(hop, ref.t[Len(ref.t)]), kind) \o HeldOf(est, HopBase(hop, est.t[Len(est.t)]), kind)]
 (* the measures on rational cents *)
 RFloor(x) == x[1] \div x[2]
 RChroma(d) == RAbs(RSub(d, R(1200 * RFloor(RAdd(RDiv(d, R(1200)), <<1, 2>>)))))
